@@ -115,6 +115,7 @@ func (m *expirationMap[V]) cleanup(store store[V], policy *defaultPolicy[V], onE
 		return 0
 	}
 
+	verifYield(verifSiteTTLCleanup, 0)
 	m.Lock()
 	now := time.Now()
 	currentBucketNum := cleanupBucket(now)
@@ -132,12 +133,15 @@ func (m *expirationMap[V]) cleanup(store store[V], policy *defaultPolicy[V], onE
 	m.Unlock()
 
 	for _, keys := range buckets {
-		for key, conflict := range keys {
+		for key, conflict := range verifRange(keys, verifRangeCleanup) {
+			verifYield(verifSiteTTLCleanupKey, key)
 			expr := store.Expiration(key)
 			// Sanity check. Verify that the store agrees that this key is expired.
 			if expr.After(now) {
+				verifEvent(verifEvSweepSkipped, key, 0, 0)
 				continue
 			}
+			verifEvent(verifEvSweepKey, key, 0, 0)
 
 			cost := policy.Cost(key)
 			policy.Del(key)
@@ -166,6 +170,7 @@ func (m *expirationMap[V]) clear() {
 		return
 	}
 
+	verifYield(verifSiteTTLClear, 0)
 	m.Lock()
 	m.buckets = make(map[int64]bucket)
 	m.lastCleanedBucketNum = cleanupBucket(time.Now())
